@@ -1,29 +1,36 @@
 use kanidmd_lib::prelude::*;
-use kanidmd_lib::value::PartialValue;
-use vf_world::ops::{self, Op, Ref};
+use vf_world::ops::Step;
+use vf_world::repl::Cluster;
 use vf_world::srv::*;
+use vf_world::{dump, inv};
 fn main() {
+    let path = std::env::args().nth(1).unwrap();
+    let v: serde_json::Value = serde_json::from_str(&std::fs::read_to_string(path).unwrap()).unwrap();
+    let steps: Vec<Step> = serde_json::from_value(v["value"]["steps"].clone()).unwrap();
     let rt = runtime();
     rt.block_on(async {
-        let mut node = ops::Node::new().await;
-        for op in [
-            Op::CreateGroup { i: 0, name: 0, members: vec![] },
-            Op::CreateGroup { i: 1, name: 1, members: vec![] },
-            Op::EnablePosix { t: Ref::G(0), gid: Some(0) },
-            Op::EnablePosix { t: Ref::G(1), gid: Some(2) },
-        ] {
-            println!("{:?} -> {:?}", op, ops::apply(&mut node, &op).await);
+        let mut cl = Cluster::new(2).await;
+        for s in &steps {
+            let r = cl.step(s).await;
+            println!("{s:?} -> {r:?}");
         }
-        let mut r = node.qs.read().await.unwrap();
-        for (n, f) in [
-            ("gt 70001", f_gt(Attribute::GidNumber, PartialValue::Uint32(70001))),
-            ("lt 80000", f_lt(Attribute::GidNumber, PartialValue::Uint32(80000))),
-            ("pres", f_pres(Attribute::GidNumber)),
-            ("pres and not lt 80000", f_and(vec![f_pres(Attribute::GidNumber), f_andnot(f_lt(Attribute::GidNumber, PartialValue::Uint32(80000)))])),
-            ("class=group and not name=*nna", f_and(vec![f_eq(Attribute::Class, PartialValue::new_iutf8("group")), f_andnot(f_sub(Attribute::Name, PartialValue::new_iname("nna x")))])),
-        ] {
-            let res = r.internal_search(Filter::new_ignore_hidden(f)).map(|v| v.iter().map(|e| e.get_ava_single_uint32(Attribute::GidNumber)).collect::<Vec<_>>());
-            println!("{n}: {:?}", res.map(|v| v.len()));
+        for n in 0..2 {
+            let mut r = cl.nodes[n].qs.read().await.unwrap();
+            let all = dump::all_entries(&mut r).unwrap();
+            println!("--- replica {n}: {:?}", inv::memberof_classify(&all));
+            for e in all.iter().filter(|e| e.get_uuid().as_u128() >> 112 == 0xAAAA || e.has_class(&EntryClass::Conflict)) {
+                println!(
+                    "{} {:?} name={:?} class={:?} member={:?} mo={:?} dmo={:?} src={:?}",
+                    e.get_uuid(),
+                    dump::status_of(e),
+                    dump::proto_values(e, Attribute::Name),
+                    dump::proto_values(e, Attribute::Class),
+                    inv::refs(e, Attribute::Member),
+                    inv::refs(e, Attribute::MemberOf),
+                    inv::refs(e, Attribute::DirectMemberOf),
+                    dump::proto_values(e, Attribute::SourceUuid),
+                );
+            }
         }
     });
 }
